@@ -36,8 +36,11 @@ LEVEL = "model_checking"
 _FREE_RUNNING = {"on": False}
 
 
-def _mk(setup=(), conns=(), options=None, pre_sql=()):
-    """options: non-default FakeSnow options; pre_sql: statements run first on a connection without context"""
+def _mk(setup=(), conns=(), options=None, pre_sql=(), routes=None):
+    """options: non-default FakeSnow options; pre_sql: statements run first on a connection without context;
+    routes: {connection name: how the session got its context} - "args" (default: connect(database=, schema=)), "use"
+    (connect() without arguments, then USE DATABASE / USE SCHEMA), "other_db" (connect to another database, then USE
+    SCHEMA db1.s1): sessions are equal citizens of DB1.S1 however they got there"""
 
     def make_env():
         import fakesnow.instance as inst
@@ -57,7 +60,17 @@ def _mk(setup=(), conns=(), options=None, pre_sql=()):
             for s in setup:
                 cur.execute(s)
         for name in conns:
-            env["conns"][name] = fs.connect(database="db1", schema="s1")
+            route = (routes or {}).get(name, "args")
+            if route == "args":
+                env["conns"][name] = fs.connect(database="db1", schema="s1")
+            elif route == "use":
+                env["conns"][name] = fs.connect()
+                cur = env["conns"][name].cursor()
+                cur.execute("use database db1")
+                cur.execute("use schema s1")
+            else:
+                env["conns"][name] = fs.connect(database="db7", schema="s7")
+                env["conns"][name].cursor().execute("use schema db1.s1")
         return env
 
     return make_env
@@ -213,6 +226,24 @@ HARNESSES = {
             [s_meta_table("r", "T7")],
         ],
     ),
+    # the same two comment setters, the sessions having reached DB1.S1 by different routes (connect arguments / USE after
+    # a connect without arguments / USE SCHEMA db1.s1 from another database)
+    "H7r": (
+        _mk(setup=["create table t7 (a varchar(4)) comment = 'old'"], conns=("a", "b", "r"), routes={"a": "use", "r": "other_db"}),
+        [
+            [s_exec("a", "comment on table t7 is 'from A'")],
+            [s_exec("b", "alter table t7 set comment = 'from B'")],
+            [s_meta_table("r", "T7")],
+        ],
+    ),
+    "H7s": (
+        _mk(setup=["create table t7 (a varchar(4)) comment = 'old'"], conns=("a", "b"), routes={"a": "other_db", "b": "use"}),
+        [
+            # (between the two renames there is no T7: the comment then legitimately fails - a result, not a fault)
+            [s_exec_catch("a", "comment on table t7 is 'from A'"), s_meta_table("a", "T7")],
+            [s_exec("b", "alter table t7 rename to t8"), s_exec("b", "alter table t8 rename to t7")],
+        ],
+    ),
     "H8": (
         _mk(setup=["create table acc (id int, n int)", "insert into acc values (1, 0)", "create table kv (k int, v varchar)"], conns=("a", "b")),
         [
@@ -234,7 +265,7 @@ HARNESSES = {
         [[s_connect("db9", "s9", "c"), s_ctx("c")], [s_exec("w", "insert into t values (7)"), s_exec("w", "select x from t order by x")]],
     ),
 }
-QUICK = ["H1a", "H1b", "H1c", "H1e", "H1f", "H1i", "H9", "H2", "H3a", "H3b", "H4", "H6", "H7", "H8"]
+QUICK = ["H1a", "H1b", "H1c", "H1e", "H1f", "H1i", "H9", "H2", "H3a", "H3b", "H4", "H6", "H7", "H7r", "H7s", "H8"]
 BOUNDS = {"quick": {h: 1 for h in HARNESSES}, "thorough": {h: 2 for h in HARNESSES}}
 BOUNDS["thorough"].update({"H1a": 3, "H2": 3})
 
@@ -414,7 +445,7 @@ def explain(hname, results, serial_keys, labels=None):
             bits.append("table_visible_before_lengths")
         if bits:
             return "reader:half_done_create:" + "+".join(sorted(set(bits)))
-    if hname == "H7":
+    if hname in ("H7", "H7r"):
         got = results[2][1][-1][1]
         comment = got[0][1] if got else "<table not listed>"
         if comment not in ("old", "from A", "from B"):
